@@ -440,3 +440,77 @@ Proof.
   - apply cuboid_correct_separation_equal; assumption.
   - apply cuboid_separation_vector_equal.
 Qed.
+
+(** ** Statements in the form used by Props/C15.v (definedness included). *)
+Lemma wrap_range_ex : forall x L : f64,
+  ffinite x = true -> ffinite L = true -> 0 < B2R L ->
+  exists w, wrap x L = Some w /\ ffinite w = true /\ 0 <= B2R w < B2R L.
+Proof.
+  intros x L Fx FL PL. destruct (wrap_spec x L Fx FL PL) as (w & k & E & F & _ & R & _).
+  exists w. auto.
+Qed.
+
+Lemma wrap_congruent_ex : forall x L : f64,
+  ffinite x = true -> ffinite L = true -> 0 < B2R L ->
+  exists (w : f64) (k : Z), wrap x L = Some w /\
+    Rabs (B2R w - (B2R x - IZR k * B2R L)) <= / 2 * ulp64 (B2R L) /\
+    (0 <= B2R x -> B2R w = B2R x - IZR k * B2R L).
+Proof.
+  intros x L Fx FL PL. destruct (wrap_spec x L Fx FL PL) as (w & k & E & _ & _ & _ & C & X).
+  exists w, k. auto.
+Qed.
+
+Lemma sep_bound_ex : forall s L : f64,
+  ffinite s = true -> ffinite L = true -> 0 < B2R L ->
+  B2R (half L) = B2R L / 2 -> Rabs (B2R s) + B2R L <= bpow radix2 1023 ->
+  exists d, sep s L = Some d /\ ffinite d = true /\ Rabs (B2R d) <= B2R L / 2.
+Proof.
+  intros s L Fs FL PL HE NO. destruct (sep_spec s L Fs FL PL HE NO) as (d & k & E & F & B & _).
+  exists d. auto.
+Qed.
+
+Lemma sep_congruent_ex : forall s L : f64,
+  ffinite s = true -> ffinite L = true -> 0 < B2R L ->
+  B2R (half L) = B2R L / 2 -> Rabs (B2R s) + B2R L <= bpow radix2 1023 ->
+  exists (d : f64) (k : Z), sep s L = Some d /\
+    Rabs (B2R d - (B2R s - IZR k * B2R L)) <= / 2 * ulp64 (B2R s + B2R L / 2) + ulp64 (B2R L).
+Proof.
+  intros s L Fs FL PL HE NO. destruct (sep_spec s L Fs FL PL HE NO) as (d & k & E & _ & _ & C).
+  exists d, k. auto.
+Qed.
+
+(** ** Concrete samples for the non-vacuity examples. *)
+Definition p_m025 : f64 := of_bits 0xBFD0000000000000.   (* -0.25 *)
+Definition p_075 : f64 := of_bits 0x3FE8000000000000.    (* 0.75 *)
+Definition p_025 : f64 := of_bits 0x3FD0000000000000.    (* 0.25 *)
+Lemma p_m025_R : B2R p_m025 = - / 4.
+Proof. unfold p_m025. b2r (of_bits 0xBFD0000000000000). unfold F2R; simpl; lra. Qed.
+Lemma p_075_R : B2R p_075 = 3 / 4.
+Proof. unfold p_075. b2r (of_bits 0x3FE8000000000000). unfold F2R; simpl; lra. Qed.
+Lemma p_025_R : B2R p_025 = / 4.
+Proof. unfold p_025. b2r (of_bits 0x3FD0000000000000). unfold F2R; simpl; lra. Qed.
+
+Lemma bpow_m1021_le_1 : bpow radix2 (-1021) <= 1.
+Proof. change 1 with (bpow radix2 0). apply bpow_le. lia. Qed.
+Lemma two_le_bpow_1023 : 2 <= bpow radix2 1023.
+Proof. change 2 with (bpow radix2 1). apply bpow_le. lia. Qed.
+
+Lemma sample_wrap_hyps : ffinite p_m025 = true /\ ffinite fone = true /\ 0 < B2R fone.
+Proof. split; [vm_compute; reflexivity|]. split; [apply fone_finite|rewrite fone_R; lra]. Qed.
+
+Lemma sample_sep_hyps :
+  ffinite p_075 = true /\ ffinite fone = true /\ 0 < B2R fone /\
+  B2R (half fone) = B2R fone / 2 /\ Rabs (B2R p_075) + B2R fone <= bpow radix2 1023.
+Proof.
+  split; [vm_compute; reflexivity|]. split; [apply fone_finite|]. split; [rewrite fone_R; lra|].
+  split.
+  - apply half_exact; [apply fone_finite|rewrite fone_R; apply bpow_m1021_le_1].
+  - rewrite p_075_R, fone_R, Rabs_pos_eq by lra. generalize two_le_bpow_1023. lra.
+Qed.
+
+Lemma sample_in_box : Forall (in_box fone) [p_075; p_025] /\ Forall (in_box fone) [p_025; p_075].
+Proof.
+  assert (A : in_box fone p_075) by (split; [vm_compute; reflexivity|rewrite p_075_R, fone_R; lra]).
+  assert (B : in_box fone p_025) by (split; [vm_compute; reflexivity|rewrite p_025_R, fone_R; lra]).
+  split; (constructor; [assumption|constructor; [assumption|constructor]]).
+Qed.
